@@ -8,6 +8,9 @@ import DateutilVerif.Proofs.RRuleGenRebuild
 import DateutilVerif.Proofs.RRuleGenDaysets
 import DateutilVerif.Proofs.RRuleGenCached
 import DateutilVerif.Proofs.RRuleGenUse
+import DateutilVerif.Proofs.RRuleGenInit
+import DateutilVerif.Proofs.RRuleGenInitAll
+import DateutilVerif.Proofs.RRuleGenInitWhole
 import DateutilVerif.Properties.C01
 
 namespace C01
@@ -180,5 +183,99 @@ theorem gen_dayset_after_rebuild (r : Rule) (hf : r.freq ≠ 0) (calls : List (I
 -- a rule out of the constructor (HOURLY, start 09:30:15): the hour's time set
 example : (constructW 0 { freq := 4, dtstart := { y := 1997, m := 9, d := 2, hh := 9, mm := 30, ss := 15, us := 0 } }).toOption.map
     (fun r => RRuleGen.genTimeset r {} 11 0 0) = some (.ok [(11, 30, 15)]) := by decide +kernel
+
+/-! ### sections of `rrule.__init__` (one top-level statement of the constructor each, re-translated from source;
+the `_original_rule` bookkeeping inside them is not part of the translation — hand model `origArgs`) -/
+
+/-- `# bymonth`: `None` kept, otherwise `tuple(sorted(set(bymonth)))` — the `.map sortedSet` of `bymonthOf` -/
+theorem gen_init_bymonth_eq_model (x : Option (List Int)) : Gen.init_bymonth x = .ok (x.map sortedSet) :=
+  RRuleGen.init_bymonth_eq x
+/-- `# byyearday` — the `byyearday` field of `construct` -/
+theorem gen_init_byyearday_eq_model (a : Args) : Gen.init_byyearday a.byyearday = .ok (a.byyearday.map sortedSet) :=
+  RRuleGen.init_byyearday_eq _
+/-- `# byweekno` — the `byweekno` field of `construct` -/
+theorem gen_init_byweekno_eq_model (a : Args) : Gen.init_byweekno a.byweekno = .ok (a.byweekno.map sortedSet) :=
+  RRuleGen.init_byweekno_eq _
+/-- `# byeaster`: `tuple(sorted(byeaster))`, repetitions kept — the `byeaster` field of `construct` -/
+theorem gen_init_byeaster_eq_model (a : Args) : Gen.init_byeaster a.byeaster = .ok (a.byeaster.map (sortBy ltInt)) :=
+  RRuleGen.init_byeaster_eq _
+/-- `# bymonthday`: the split into positive and negative members, applied to the argument after the defaults block
+    (`monthdayArg`) — the fields `bymonthday` / `bynmonthday` of `construct` -/
+theorem gen_init_bymonthday_eq_model (a : Args) :
+    Gen.init_bymonthday (monthdayArg a) = .ok (bymonthdayOf a, bynmonthdayOf a) := by
+  rw [RRuleGen.init_bymonthday_eq]
+  unfold bymonthdayOf bynmonthdayOf
+  cases monthdayArg a <;> rfl
+/-- the BYSETPOS block: ValueError for a position 0 or outside −366..366 — `normBysetpos` -/
+theorem gen_init_bysetpos_eq_model (a : Args) : Gen.init_bysetpos a.bysetpos = normBysetpos a :=
+  RRuleGen.init_bysetpos_eq a
+/-- `# byhour`: default from dtstart below HOURLY, `__construct_byset` (translated) at HOURLY, sorted set otherwise — `normUnit … 4 … 24` -/
+theorem gen_init_byhour_eq_model (a : Args) :
+    Gen.init_byhour a.freq a.dtstart a.interval a.byhour = normUnit a.freq 4 a.interval a.dtstart.hh a.byhour 24 :=
+  RRuleGen.init_byhour_eq _ _ _ _
+/-- `# byminute` — `normUnit … 5 … 60` -/
+theorem gen_init_byminute_eq_model (a : Args) :
+    Gen.init_byminute a.freq a.dtstart a.interval a.byminute = normUnit a.freq 5 a.interval a.dtstart.mm a.byminute 60 :=
+  RRuleGen.init_byminute_eq _ _ _ _
+/-- `# bysecond` (after the repair: one read of the argument) — `normUnit … 6 … 60` -/
+theorem gen_init_bysecond_eq_model (a : Args) :
+    Gen.init_bysecond a.freq a.dtstart a.interval a.bysecond = normUnit a.freq 6 a.interval a.dtstart.ss a.bysecond 60 :=
+  RRuleGen.init_bysecond_eq _ _ _ _
+
+/-- `if interval < 1: raise ValueError` — the guard of `construct` -/
+theorem gen_init_interval_eq_model (i : Int) : Gen.init_interval i = if i < 1 then .error .ValueError else .ok () :=
+  RRuleGen.init_interval_eq i
+/-- the week start: `calendar.firstweekday()` (the explicit input `fwd` of `constructW`) exactly when `wkst` is None — `resolveW` -/
+theorem gen_init_wkst_eq_model (fwd : Int) (a : Args) : Gen.init_wkst fwd a.wkst = .ok ((resolveW fwd a).wkst.getD 0) := by
+  rw [RRuleGen.init_wkst_eq]; rfl
+/-- the defaults block (no BYWEEKNO / BYYEARDAY / BYMONTHDAY / BYDAY / BYEASTER: BYMONTH+BYMONTHDAY, BYMONTHDAY or BYDAY from
+    dtstart by frequency) — the arguments `bymonthOf` / `monthdayArg` / `weekdayArg` normalise -/
+theorem gen_init_defaults_eq_model (a : Args) :
+    Gen.init_defaults a.freq a.dtstart a.bymonth a.bymonthday a.byyearday a.byeaster a.byweekno a.byweekday =
+      .ok (if noDayParts a && a.freq == 0 && a.bymonth.isNone then some [a.dtstart.m] else a.bymonth,
+           monthdayArg a, weekdayArg a) :=
+  RRuleGen.init_defaults_eq a
+/-- the timeset block — `timesetOf` (below HOURLY all three tuples are set, as `normUnit` guarantees) -/
+theorem gen_init_timeset_eq_model (a : Args) (bh bm bs : Option (List Int))
+    (h : a.freq < 4 → bh.isSome = true ∧ bm.isSome = true ∧ bs.isSome = true) :
+    Gen.init_timeset a.freq bh bm bs = timesetOf a bh bm bs :=
+  RRuleGen.init_timeset_eq a bh bm bs h
+
+/-- the BYDAY block: plain members (ints, `MO`, every `MO(n)` above MONTHLY) and nth members as sorted sets, `None` for an
+    empty part, on the argument after the defaults block — the fields `byweekday` / `bynweekday` of `construct` -/
+theorem gen_init_byweekday_eq_model (a : Args) :
+    Gen.init_byweekday a.freq (weekdayArg a) = .ok (byweekdayOf a, bynweekdayOf a) :=
+  RRuleGen.init_byweekday_eq a
+
+/-- **the constructor, from its translated sections**: the sixteen blocks of `rrule.__init__` re-translated from source,
+    sequenced in source order (`RRuleGen.initSections`), are the model's `constructW fwd` — the same ValueError or the same
+    normalised rule, field for field, for every argument set and every ambient first weekday.
+    `_partial`: the sequencing (which variable feeds which block) and the plain attribute copies (`self._freq = freq`,
+    `self._count`, `self._until`, `dtstart.replace(microsecond=0)`, `self._tzinfo`) are written by hand in `initSections`, not
+    translated; the `_original_rule` bookkeeping (hand model `origArgs`), the `until` / `dtstart` conversions from `date`
+    and the UNTIL-vs-DTSTART awareness check are not covered (the `Args` type carries one zone tag and datetimes only).
+    Full statement wanted: `Gen.init fwd a = (constructW fwd a, origArgs a ·)` for a translation of the whole function. -/
+theorem gen_construct_eq_model_partial (fwd : Int) (a : Args) : RRuleGen.initSections fwd a = constructW fwd a :=
+  RRuleGen.initSections_eq fwd a
+
+/-- **`rrule.__init__` as written now = the model's constructor**: `Gen.init` — every statement of the function translated in
+    sequence (Generated/RRuleKernels.lean) — returns, for every argument set `a` and every ambient first weekday `fwd`, the same
+    ValueError or the same normalised rule as `constructW fwd a`, field for field (`cache` is irrelevant).
+    What the translation leaves out of the function text (each a documented rule of `translate_rr.clean_init` / the `Args`
+    conventions, not a proof gap): the `_original_rule` bookkeeping (hand model `origArgs`), `warn(...)`, the UNTIL / DTSTART
+    awareness check (`Args` carries one zone tag), and the branches for `dtstart` / `until` given as `date` or omitted and for BY
+    arguments given as scalars / weekday objects (`Args` holds datetimes, 1-tuples and `(weekday, n)` pairs). -/
+theorem gen_construct_eq_model (fwd : Int) (a : Args) (cache : Bool) :
+    Gen.init fwd a.tz a.freq a.dtstart a.interval a.wkst a.count a.untilDT a.bysetpos a.bymonth a.bymonthday a.byyearday
+      a.byeaster a.byweekno a.byweekday a.byhour a.byminute a.bysecond cache = constructW fwd a := by
+  rw [RRuleGen.init_eq_sections, RRuleGen.initSections_eq]
+
+example : (RRuleGen.initSections 0 { freq := 1, byweekday := some [(4, 1), (0, 0)], dtstart := { y := 1997, m := 9, d := 2, hh := 9, mm := 0, ss := 0, us := 5 } }).toOption.map (fun r => r.bynweekday) =
+    some (some [(4, 1)]) := by decide +kernel
+example : RRuleGen.initSections 0 { freq := 1, interval := 0, dtstart := default } = .error .ValueError := by decide +kernel
+
+example : Gen.init_bymonthday (some [3, -1, 3, 15, -2]) = .ok ([3, 15], [-2, -1]) := by decide
+example : Gen.init_bysetpos (some [1, 367]) = .error .ValueError := by decide
+example : Gen.init_byhour 4 { y := 1997, m := 9, d := 2, hh := 17, mm := 0, ss := 0, us := 0 } 4 (some [2, 21, 1]) = .ok (some [1, 21]) := by decide
 
 end C01
